@@ -11,12 +11,16 @@ CONSTANTS
   Routes = {"global", "api", "ctor", "setter"}
   Extras = {"none"}
   CfgReads = {"both", "k-ctor-drops", "x-ctor-drops", "k-setter-noop", "x-setter-noop", "k-api-stale"}
+  CLists <- MCLists
+  PathReads = {"sum", "k-overwrites", "last-continuum", "stops-at-k"}
 INVARIANT HoldFresh
 INVARIANT HoldTwin
 INVARIANT OnRequestedGrid
 INVARIANT OnNodeSchemeFree
 INVARIANT NodeBlind
 INVARIANT RouteBlind
+INVARIANT HoldOrder
+INVARIANT ListBlind
 INVARIANT RefuteSize
 INVARIANT RefuteFirst
 INVARIANT RefuteWindowTwin
@@ -26,5 +30,8 @@ INVARIANT RefuteXDrops
 INVARIANT RefuteKNoop
 INVARIANT RefuteXNoop
 INVARIANT RefuteKStale
+INVARIANT RefuteOverwrite
+INVARIANT RefuteLastOnly
+INVARIANT RefuteStopsAtK
 CONSTRAINT MutantAlphabet
 CHECK_DEADLOCK FALSE
